@@ -12,6 +12,7 @@ SIZES = {
     "bounds": (640, 8000),
     "float": (320, 4000),
     "relayout": (480, 6000),
+    "budget": (320, 4000),
 }
 
 
